@@ -476,6 +476,13 @@ func ruleDecidedBy(c *Ctx, rule, construct, desc string, start *ssa.BasicBlock, 
 func ruleMigrateRound2(c *Ctx) {
 	L := c.L
 	if c.Prop == "C13" {
+		rulePackagelessRendererOnlyAsFallback(c, "C13.7")
+		ruleImportSnapshotLast(c, "C13.8")
+	} else {
+		rulePackagelessRendererOnlyAsFallback(c, "C14.6")
+		ruleNoImportForSkippedFields(c, "C14.8", ruleImportSnapshotLast(c, "C14.7"))
+	}
+	if c.Prop == "C13" {
 		// C13.5 the bound-type set is computed from the element list being transformed
 		if te := resolveRole(c, migPkg, "(*Transformer).transformElements"); te != nil {
 			n := 0
